@@ -24,4 +24,15 @@ theorem unpack_spec : type_of% @GLua.Props.C02.unpack_spec := @GLua.Props.C02.un
 theorem tailcall_old_loses_arg_table : type_of% @GLua.Props.C02.tailcall_old_loses_arg_table := @GLua.Props.C02.tailcall_old_loses_arg_table
 theorem tailcall_keeps_arg_table : type_of% @GLua.Props.C02.tailcall_keeps_arg_table := @GLua.Props.C02.tailcall_keeps_arg_table
 theorem flush_old_defects : type_of% @GLua.Props.C02.flush_old_defects := @GLua.Props.C02.flush_old_defects
+theorem results_adjusted : type_of% @GLua.Props.C02.results_adjusted := @GLua.Props.C02.results_adjusted
+theorem call_site_delivers : type_of% @GLua.Props.C02.call_site_delivers := @GLua.Props.C02.call_site_delivers
+theorem method_call_self : type_of% @GLua.Props.C02.method_call_self := @GLua.Props.C02.method_call_self
+theorem explist_delivers : type_of% @GLua.Props.C02.explist_delivers := @GLua.Props.C02.explist_delivers
+theorem constructor_fields_stored : type_of% @GLua.Props.C02.constructor_fields_stored := @GLua.Props.C02.constructor_fields_stored
+theorem constructor_positional_fields : type_of% @GLua.Props.C02.constructor_positional_fields := @GLua.Props.C02.constructor_positional_fields
+theorem return_list_delivers : type_of% @GLua.Props.C02.return_list_delivers := @GLua.Props.C02.return_list_delivers
+theorem paren_call_single : type_of% @GLua.Props.C02.paren_call_single := @GLua.Props.C02.paren_call_single
+theorem assignment_rhs_adjusted : type_of% @GLua.Props.C02.assignment_rhs_adjusted := @GLua.Props.C02.assignment_rhs_adjusted
+theorem tailcall_emitted_iff : type_of% @GLua.Props.C02.tailcall_emitted_iff := @GLua.Props.C02.tailcall_emitted_iff
+theorem tailcall_passes_values : type_of% @GLua.Props.C02.tailcall_passes_values := @GLua.Props.C02.tailcall_passes_values
 end GLua.Props.C02M
